@@ -62,9 +62,103 @@ fn c01_documented_parenthesised_assignment() -> (bool, String) {
     }
 }
 
+/// what a recorded text must evaluate to
+enum Want {
+    Int(i64),
+    Num(f64),
+    Text(&'static str),
+    /// an error value (Err), not a panic and not a value
+    Error,
+}
+
+/// Recorded texts around the repair of `c01_documented_parenthesised_assignment` (strip_outer_parens in src/expression.rs), straight
+/// through `evaluate_expression`: a parenthesised operand is evaluated as the expression between its parentheses wherever it stands
+/// and however deeply it is nested; parentheses that are not ONE matching outer pair are not stripped (`(a)(b)`, `(a + b`, `a + b)`
+/// stay errors, they are not a value and not a panic); a quoted text that contains parentheses stays that text.  a=10 b=5 c=2 d=8 x=7.
+/// The documented FIRST_RULES.md expression `(Order.ItemPrice * Order.Quantity) * 0.1` is among them.
+fn c01_documented_parenthesised_operands_recorded() -> (bool, String) {
+    use rust_rule_engine::expression::evaluate_expression;
+    let facts = Facts::new();
+    for (k, v) in [("a", 10i64), ("b", 5), ("c", 2), ("d", 8), ("x", 7), ("Order.ItemPrice", 30), ("Order.Quantity", 4)] {
+        facts.set(k, Value::Integer(v));
+    }
+    facts.set("Order.discount", Value::Number(0.25));
+    let cases: Vec<(&str, Want)> = vec![
+        ("(a)", Want::Int(10)),
+        ("((a))", Want::Int(10)),
+        ("( a )", Want::Int(10)),
+        ("  ( ( a + b ) )  ", Want::Int(15)),
+        ("((a + b))", Want::Int(15)),
+        ("(a + b) * c", Want::Int(30)),
+        ("a * (b + c)", Want::Int(70)),
+        ("a - (b - c)", Want::Int(7)),
+        ("a - (b - (c - d))", Want::Int(-1)),
+        ("(a + b) * (c - d)", Want::Int(-90)),
+        ("((a + b) * c) - (d / (c + c))", Want::Int(28)),
+        ("(a) + (b)", Want::Int(15)),
+        ("a / (b - 5)", Want::Error),
+        ("(Order.ItemPrice * Order.Quantity) * 0.1", Want::Num(12.0)),
+        ("200 * (1 - Order.discount)", Want::Num(150.0)),
+        ("(3)", Want::Int(3)),
+        ("(2.5) * (2)", Want::Num(5.0)),
+        // a quoted text is a text, whatever it contains; the parentheses around a quoted text are stripped
+        ("\"(x)\"", Want::Text("(x)")),
+        ("'(a + b)'", Want::Text("(a + b)")),
+        ("(\"(x)\")", Want::Text("(x)")),
+        // not ONE matching outer pair: never stripped, an error and not a panic
+        ("(a + b", Want::Error),
+        ("a + b)", Want::Error),
+        ("(a)(b)", Want::Error),
+        ("(a))", Want::Error),
+        ("((a)", Want::Error),
+        (")a(", Want::Error),
+        ("()", Want::Error),
+        ("(", Want::Error),
+        (")", Want::Error),
+        ("(\u{e9})", Want::Error),
+        ("(a + \u{e9})", Want::Error),
+    ];
+    let mut bad = Vec::new();
+    for (text, want) in &cases {
+        let t = text.to_string();
+        let f = facts.clone();
+        let got = match std::panic::catch_unwind(std::panic::AssertUnwindSafe(move || evaluate_expression(&t, &f))) {
+            Ok(g) => g,
+            Err(_) => {
+                bad.push(format!("evaluate_expression({:?}) PANICKED", text));
+                continue;
+            }
+        };
+        let ok = match (want, &got) {
+            (Want::Int(w), Ok(Value::Integer(i))) => i == w,
+            (Want::Int(w), Ok(Value::Number(n))) => (*n - *w as f64).abs() < 1e-9,
+            (Want::Num(w), Ok(Value::Number(n))) => (*n - *w).abs() < 1e-9,
+            (Want::Num(w), Ok(Value::Integer(i))) => (*i as f64 - *w).abs() < 1e-9,
+            (Want::Text(w), Ok(Value::String(s))) => s == w,
+            (Want::Error, Err(_)) => true,
+            _ => false,
+        };
+        if !ok {
+            let w = match want {
+                Want::Int(w) => format!("{}", w),
+                Want::Num(w) => format!("{}", w),
+                Want::Text(w) => format!("the text {:?}", w),
+                Want::Error => "an error".to_string(),
+            };
+            bad.push(format!("evaluate_expression({:?}) = {:?}, expected {}", text, got.map_err(|e| e.to_string()), w));
+        }
+    }
+    if bad.is_empty() {
+        (false, format!("{} recorded texts with parentheses (a=10 b=5 c=2 d=8) evaluate as written", cases.len()))
+    } else {
+        (true, format!("a=10 b=5 c=2 d=8 x=7: {}", bad.join("; ")))
+    }
+}
+
 pub fn witnesses() -> Vec<crate::W> {
     vec![
         ("c01_parenthesised_arithmetic_condition_is_misread", c01_parenthesised_arithmetic_condition_is_misread),
         ("c01_documented_parenthesised_assignment", c01_documented_parenthesised_assignment),
+        ("c01_documented_parenthesised_operands_recorded", c01_documented_parenthesised_operands_recorded),
     ]
 }
